@@ -108,6 +108,12 @@ impl EAppend {
                     ..Default::default()
                 };
 
+                // Whether an argument was given is tracked separately from its value:
+                // `PAYLOAD ""` and `EXPECTED_VERSION any` are given arguments too.
+                let mut seen_expected_version = false;
+                let mut seen_payload = false;
+                let mut seen_metadata = false;
+
                 for arg in args {
                     match arg {
                         OptionalArg::EventId(event_id) => {
@@ -129,7 +135,7 @@ impl EAppend {
                             cmd.partition_key = Some(partition_key);
                         }
                         OptionalArg::ExpectedVersion(expected_version) => {
-                            if !matches!(cmd.expected_version, ExpectedVersion::Any) {
+                            if std::mem::replace(&mut seen_expected_version, true) {
                                 return Err(easy::Error::message_format(
                                     "expected version already specified",
                                 ));
@@ -147,7 +153,7 @@ impl EAppend {
                             cmd.timestamp = Some(timestamp);
                         }
                         OptionalArg::Payload(payload) => {
-                            if !cmd.payload.is_empty() {
+                            if std::mem::replace(&mut seen_payload, true) {
                                 return Err(easy::Error::message_format(
                                     "payload already specified",
                                 ));
@@ -156,7 +162,7 @@ impl EAppend {
                             cmd.payload = payload.to_vec();
                         }
                         OptionalArg::Metadata(metadata) => {
-                            if !cmd.metadata.is_empty() {
+                            if std::mem::replace(&mut seen_metadata, true) {
                                 return Err(easy::Error::message_format(
                                     "metadata already specified",
                                 ));
